@@ -137,7 +137,7 @@ func TestC18_ServerLifecycle(t *testing.T) {
 						if _, err := p.ClientHandshake(true); err == nil {
 							id := netfx.MakeID(1)
 							p.WriteMsg(netfx.OpenMsg(id, 1<<20, []byte("x")))
-							p.ReadFrame(boundArrive)
+							p.ReadFrame(boundArrive())
 						}
 						p.Close()
 					}
